@@ -12,14 +12,14 @@ sys.path.insert(0, "/repo")
 os.environ.setdefault("TERM", "xterm-256color")
 
 props = [json.loads(l) for l in open(os.path.join(ROOT, "properties.jsonl"))]
-import subprocess
-TRACKED = set(subprocess.check_output(["git", "-C", ROOT, "ls-files", "harness/props"], text=True).split())
+# properties whose check the coordinator has accepted (one id per line)
+READY = set(open(os.path.join(HERE, "ready.txt")).read().split())
 checks = []
 na = []
 for p in props:
     pid = p["id"]
     path = os.path.join(HERE, "props", pid.lower() + ".py")
-    if not os.path.exists(path) or ("harness/props/%s.py" % pid.lower()) not in TRACKED:
+    if not os.path.exists(path) or pid not in READY:
         na.append({"property_id": pid, "reason": "check not built yet (planned, see DESIGN.md section 5)"})
         continue
     m = importlib.import_module("props." + pid.lower())
